@@ -133,7 +133,8 @@ CHECKS = {
     },
     "C06": {
         "level": "fault_enumeration",
-        "units": [unit("c06-root", "root", ["zz_verif_c06_test.go", "zz_verif_c11_test.go"], "^TestVerifC06", shards={"quick": 16, "thorough": 16})],
+        "units": [unit("c06-root", "root", ["zz_verif_c06_test.go", "zz_verif_c11_test.go"], "^TestVerifC06", shards={"quick": 16, "thorough": 16}),
+                  unit("c06-interleave", "root", ["zz_verif_c06_interleave_test.go"], "^TestVerifC06Interleaved$", shards={"quick": 8, "thorough": 8})],
         "assumptions": ["with a keyshare contribution the commitment proof is completed by the keyshare server; that exchange is C14's"],
     },
     "C14": {
